@@ -71,8 +71,10 @@ type ExprObject struct {
 }
 
 type ObjectKeyValue struct {
-	Key   string
-	Value Expr
+	Key string
+	// the key was written as a string literal, not as a bare name
+	KeyToken *Token
+	Value    Expr
 }
 
 type ExprUnary struct {
